@@ -168,6 +168,48 @@ func NewInterp(m *ast.Module) (*Interp, error) {
 	return &Interp{I: it, Routes: Routes(m)}, nil
 }
 
+// RunCommand executes a `!` command through ExecuteCommand.
+func (it *Interp) RunCommand(m *ast.Module, call *lang.CmdCall, name string) (out Outcome) {
+	defer func() {
+		if p := recover(); p != nil {
+			out = Outcome{Panic: fmt.Sprint(p)}
+		}
+	}()
+	for _, item := range m.Items {
+		var cmd *ast.Command
+		switch c := item.(type) {
+		case *ast.Command:
+			cmd = c
+		case ast.Command:
+			cmd = &c
+		}
+		if cmd == nil || cmd.Name != name {
+			continue
+		}
+		args := map[string]interface{}{}
+		for k, v := range call.Args {
+			switch x := v.(type) {
+			case float64:
+				if x == float64(int64(x)) {
+					args[k] = int64(x)
+				} else {
+					args[k] = x
+				}
+			case int:
+				args[k] = int64(x)
+			default:
+				args[k] = v
+			}
+		}
+		v, err := it.I.ExecuteCommand(cmd, args)
+		if err != nil {
+			return Outcome{Err: true, Msg: err.Error()}
+		}
+		return Outcome{Status: 200, Value: v}
+	}
+	return Outcome{Err: true, Msg: "command not found in the parsed module"}
+}
+
 // RunRoute executes one request on the tree-walking interpreter.
 func (it *Interp) RunRoute(req *lang.Request) (out Outcome) {
 	defer func() {
